@@ -16,6 +16,7 @@ import re
 from typing import Any
 
 from .. import cfg as cfgmod
+from .. import isa
 from ..core import REPO, AnalysisError, Ctx
 from ..rsfacts import RustProgram, expr_text, pat_text, walk
 from ..rules import key_of, rs_defs, rs_is_call, rs_is_mcall, rs_leaves
@@ -290,3 +291,28 @@ def cpu_task(ctx: Ctx, rs: RustProgram) -> None:
         ctx.violation("C18.4/cpu-task", key_of(rn.file, rn.qual, "clock-seed"), "the async runner does not seed the driver clock from the runtime's cycle count", rn.where)
     ctx.instance("C18.4/cpu-task", "CPU task = sleep one cycle then one synchronous step, once per instruction; driver clock seeded from the runtime", n, 3)
     ctx.sample({"cpu_task_body": [(k, v) for _l, k, v in seq]})
+    # step(n) must be step(1) n times: the CPU task calls step(1) per wake-up, the synchronous loop step(n).  Everything the function
+    # does to the machine therefore has to sit inside its per-instruction loop; outside it only items, pure bindings and the result.
+    st = rs.fn(isa.LIB_RS, "CoreRuntime::step")
+    top = st.body["stmts"]
+    loops = [x for x in top if x.get("k") == "expr_stmt" and isinstance(x.get("e"), dict) and x["e"].get("k") in ("for", "while", "loop")]
+    ctx.need(len(loops) == 1, f"CoreRuntime::step: expected one top-level instruction loop, found {len(loops)}")
+    lp = loops[0]["e"]
+    if lp["k"] != "for" or expr_text(lp["iter"]).replace(" ", "") != "0..instructions":
+        ctx.violation("C18.4/step-iterated", key_of(st.file, st.qual, "loop-range"), f"CoreRuntime::step iterates `{expr_text(lp.get('iter', lp.get('cond', {})))}`, not once per requested instruction", st.where)
+    nn = 0
+    for x in top:
+        nn += 1
+        if x is loops[0] or x.get("k") == "item_stmt":
+            continue
+        eff = [e for e in walk(x) if (e.get("k") == "mcall" and expr_text(e["recv"]).replace(" ", "").startswith("self")) or e.get("k") in ("assign", "opassign")
+               or (e.get("k") == "macro")]
+        pure_result = x is top[-1] and not eff
+        if x.get("k") == "local" and not eff:
+            continue
+        if pure_result:
+            continue
+        what = expr_text(eff[0]) if eff else x.get("src", "")[:80]
+        ctx.violation("C18.4/step-iterated", key_of(st.file, st.qual, "effect outside the instruction loop"),
+                      f"CoreRuntime::step does `{what[:90]}` once per call, outside `for _ in 0..instructions`: step(n) is then not step(1) repeated n times, so the scheduler-driven CPU (one step(1) per wake-up) and the synchronous loop leave different machine states", f"{st.file}:{x.get('ln')}")
+    ctx.instance("C18.4/step-iterated", "top-level statements of CoreRuntime::step: items, the per-instruction loop, the result - no per-call effects", nn, 3)
